@@ -229,10 +229,22 @@ class Workflow(WorkflowBase, Generic[T], Immutable):
         else:
             raise ValueError("Workflow can only have one output task")
 
+        from dask.core import literal
+
+        def interpreted(value, keys=frozenset(ids.values())):
+            # dask reads a str equal to a key as that task's result and a (callable, ...) tuple as a
+            # computation, also inside tuples, lists, sets and dicts: such static input is quoted
+            if isinstance(value, dict):
+                value = list(value.values())
+            if isinstance(value, (tuple, list, set, frozenset)):
+                is_task = type(value) is tuple and len(value) > 0 and callable(value[0])
+                return is_task or any(map(interpreted, value))
+            return isinstance(value, str) and value in keys
+
         as_dict = {}
         for task in nx.dfs_tree(self._g):
             key = ids[task]
-            input_list = list(task.task_input)
+            input_list = [(literal(inp),) if interpreted(inp) else inp for inp in task.task_input]
             input_list.extend(ids[t] for t in self._g.predecessors(task))
             value = (task.function, *input_list)
             as_dict[key] = value
